@@ -1,7 +1,7 @@
 #!/bin/sh
 # re-run the property's check against every stored seeded change (scratch worktree, VERIF_REPO) and refresh meta.json
 cd /verif
-for d in seeded/*/; do
+for d in seeded/C*/; do
   n=$(basename $d); p=$(python3 -c "import json;print(json.load(open('$d/meta.json'))['property'])")
   keepnotes=$(mktemp -d); cp $d/patch.diff $d/demo.py $keepnotes/; python3 -c "
 import json; m=json.load(open('$d/meta.json')); open('$keepnotes/notes.md','w').write(m.get('needs_to_manifest',''))"
